@@ -130,17 +130,17 @@ structure GRat where
 deriving DecidableEq
 
 namespace GRat
-instance : Zero GRat := ⟨⟨0, 0⟩⟩
-instance : One GRat := ⟨⟨1, 0⟩⟩
-instance : Add GRat := ⟨fun a b => ⟨a.re + b.re, a.im + b.im⟩⟩
-instance : Sub GRat := ⟨fun a b => ⟨a.re - b.re, a.im - b.im⟩⟩
-instance : Neg GRat := ⟨fun a => ⟨-a.re, -a.im⟩⟩
-instance : Mul GRat := ⟨fun a b => ⟨a.re * b.re - a.im * b.im, a.re * b.im + a.im * b.re⟩⟩
+instance instZero : Zero GRat := ⟨⟨0, 0⟩⟩
+instance instOne : One GRat := ⟨⟨1, 0⟩⟩
+instance instAdd : Add GRat := ⟨fun a b => ⟨a.re + b.re, a.im + b.im⟩⟩
+instance instSub : Sub GRat := ⟨fun a b => ⟨a.re - b.re, a.im - b.im⟩⟩
+instance instNeg : Neg GRat := ⟨fun a => ⟨-a.re, -a.im⟩⟩
+instance instMul : Mul GRat := ⟨fun a b => ⟨a.re * b.re - a.im * b.im, a.re * b.im + a.im * b.re⟩⟩
 /-- `1/z = conj z / |z|²` (`0` for `z = 0`, as `Rat` division) -/
-instance : Inv GRat := ⟨fun a =>
+instance instInv : Inv GRat := ⟨fun a =>
   ⟨a.re / (a.re * a.re + a.im * a.im), -a.im / (a.re * a.re + a.im * a.im)⟩⟩
-instance : Div GRat := ⟨fun a b => a * b⁻¹⟩
-instance : NatCast GRat := ⟨fun n => ⟨(n : Rat), 0⟩⟩
+instance instDiv : Div GRat := ⟨fun a b => a * b⁻¹⟩
+instance instNatCast : NatCast GRat := ⟨fun n => ⟨(n : Rat), 0⟩⟩
 end GRat
 
 end Pyunicorn.CircuitK
